@@ -14,7 +14,8 @@ Why(R) ==
   THEN "a global outside the allowlist was resolved: " \o R.resolved[CHOOSE i \in DOMAIN R.resolved : ~R.resolved[i].ok].n
   ELSE IF \E i \in DOMAIN R.ran : R.ran[i] \notin R.may_run THEN "a callable outside the allowlist executed: " \o R.ran[CHOOSE i \in DOMAIN R.ran : R.ran[i] \notin R.may_run]
   ELSE IF R.outsider /\ R.out # "unsafe" THEN "a load containing an outsider did not abort with the unsafe-file error (" \o R.out \o ")"
-  ELSE IF ~R.outsider /\ R.out # "returned" THEN "MACHINERY: a load of allow-listed globals only did not return (" \o R.out \o ")"
+  ELSE IF ~R.outsider /\ R.out # "returned" /\ R.case.layer = "ml"
+       THEN "MACHINERY: a load of allow-listed globals only did not return (" \o R.out \o ")"      \* an extra static check may refuse more
   ELSE "ok"
 Judge == /\ ~done /\ done' = TRUE /\ UNCHANGED tid /\ verdict' = Why(T[tid])
 Spec == Init /\ [][Judge]_vars
